@@ -27,6 +27,8 @@ func propC08(w *World, r *Report) {
 	runDet(w, r, e, "C08")
 	RunSizeAgree(w, r, func(p string) bool { return strings.Contains(p, "/opentype/") })
 	RunSizeControls(r)
+	RunRowWidth(w, r)
+	RunAbsentList(w, r)
 	RunTwinFormula(w, r, func(p string) bool { return strings.Contains(p, "/opentype/") })
 	var enc []*ssaFn
 	for _, f := range w.LibFuncs() {
